@@ -339,6 +339,9 @@ class _Ser:
         self.n_el = getattr(self, 'n_el', 0) + 1
         if self.s['comments'] and self.n_el % 4 == 1 and level >= 1:
             self.out.append(f'{pad}<!-- c{self.n_el}: id="x" & <not a tag> -->{nl}')
+        if self.s['comments'] and self.n_el % 8 == 5 and level >= 1:
+            # a processing instruction may hold anything but '?>' - tag look-alikes too
+            self.out.append(f'{pad}<?wnv p{self.n_el} <Lexicon id="ghost" version="9"> ?>{nl}')
         if self.s['blank_lines'] and self.n_el % 5 == 2 and nl:
             self.out.append('\n')
         a = self.attrs(el.attrs, pad)
